@@ -149,6 +149,10 @@ DESC_FAULTS = {
     "parameter-fixed-and-dependent": "cond",
     "parameter-fixed-at-zero-and-dependent": "cond",  # a falsy fixed value (f_gamma=0 is what the predefined models use)
     "parameter-neither": "cond",
+    # two malformations of the parameter bookkeeping in one and the same description (different parameters)
+    "parameter-fixed-and-dependent/and-another-neither": "cond",
+    "two-parameters-fixed-and-dependent": "cond",
+    "two-parameters-neither": "cond",
     "first-variable-conditional": "first",
     "conditional-on-self": "notfirst",
     "conditional-on-later": "notfirst-notlast",
@@ -504,6 +508,16 @@ def run_pipeline(pipe, faults, run=None):
                 fixed[p] = 0 if i % 2 else 0.0
             if has("parameter-neither", i):
                 deps.pop(next(iter(deps)))
+            if has("parameter-fixed-and-dependent/and-another-neither", i):
+                p = next(iter(deps))
+                fixed[p] = d["truth"][p]
+                deps.pop(list(deps)[-1])
+            if has("two-parameters-fixed-and-dependent", i):
+                for p in (list(deps)[0], list(deps)[-1]):
+                    fixed[p] = d["truth"][p]
+            if has("two-parameters-neither", i):
+                for p in (list(deps)[0], list(deps)[-1]):
+                    deps.pop(p)
             if has("first-variable-conditional", i):
                 cond_on = 0
                 for p in FAMILIES[d["family"]][1]:
